@@ -492,6 +492,40 @@ class Gen:
         self.vars[m] = ('u', w)
         return m
 
+    def t_partconst(self):
+        """an operation with ONE constant operand that is all zeros / all ones / one-hot / has undefined bits
+        (propagateConstants evaluates the node with the other operand undefined and folds it when the result comes
+        back fully defined: sound only where the constant really dominates - AND 0, OR 1s, NAND 0, NOR 1s, MUL 0)"""
+        w = self.r.choice([1, 2, 2, 3])
+        kind = self.r.choice(["zeros", "zeros", "ones", "ones", "onehot", "x"])
+        bits = {"zeros": "0" * w, "ones": "1" * w,
+                "onehot": "".join("1" if i == self.r.randrange(w) else "0" for i in range(w)),
+                "x": "".join(self.r.choice("01X") for _ in range(w))}[kind]
+        k = self.fresh("k")
+        self.emit(f"lit {k} u{w} {bits}")
+        self.vars[k] = ('u', w)
+        x = self.get_u(w)
+        if self.vars[x] != ('u', w) or x == k:
+            x = self.new_in(w)
+            if self.vars.get(x) != ('u', w): x = self.lit_u(w)
+        op = self.r.choice(['and', 'or', 'xor', 'nand', 'nor', 'xnor', 'add', 'sub', 'mul', 'eq', 'ne', 'lt', 'ge'])
+        a, b = (x, k) if self.r.random() < 0.5 else (k, x)
+        n = self.fresh("t")
+        self.emit(f"bin {n} {op} {a} {b}")
+        if op in ('eq', 'ne', 'lt', 'ge'):
+            self.vars[n] = ('b', 1)
+            o = self.fresh("t")
+            self.emit(f"mux {o} {n} {self.get_u(w)} {self.get_u(w)}")
+            self.vars[o] = ('u', w)
+            return o
+        self.vars[n] = ('u', w)
+        if self.r.random() < 0.4:
+            m = self.fresh("t")
+            self.emit(f"not {m} {n}")
+            self.vars[m] = ('u', w)
+            return m
+        return n
+
     def t_regconst(self):
         """register fed by a constant, with compatible / incompatible / no reset value (propagateConstants)"""
         w = 1
@@ -508,7 +542,7 @@ class Gen:
         return q
 
 
-TEMPLATES = ["t_ifchain", "t_muxchain", "t_muxmerge", "t_noop", "t_reg", "t_holdloop", "t_constfold", "t_regconst", "t_rewire", "t_cmpconst", "expr", "expr"]
+TEMPLATES = ["t_ifchain", "t_muxchain", "t_muxmerge", "t_noop", "t_reg", "t_holdloop", "t_constfold", "t_partconst", "t_regconst", "t_rewire", "t_cmpconst", "expr", "expr"]
 
 
 def gen_design(seed, did, decorate=None, extra_templates=()):
